@@ -495,7 +495,7 @@ uint StringDictionaryPFC::searchPrefix(uchar **ptr, uint scanneable,
                               *decLen - sharedCurr, &sharedCurr);
 
     if (sharedCurr == strLen)
-      break;
+      return id;
     else {
       id++;
       if ((cmp > 0) || (id > scanneable))
@@ -508,7 +508,7 @@ uint StringDictionaryPFC::searchPrefix(uchar **ptr, uint scanneable,
     }
   }
 
-  return id;
+  return NORESULT;
 }
 
 uint StringDictionaryPFC::searchDistinctPrefix(uchar *ptr, uint scanneable,
